@@ -97,17 +97,24 @@ def run(tier, seed, t0):
             ol = [case_line(r['cid'], 'dre', r['tid'], r['type'], r['input'] or '-') for r in acc]
             ores = run_cases(exe, ol)
             stats['evaluations'] += len(ol)
+            # the known finding F8 is specific: an index collection collapses repeated entries.  A mismatch is classed as F8
+            # only when (a) the type has an index collection, (b) the re-encoding is strictly shorter than what was consumed,
+            # (c) the decoded value is the one the MODEL decodes, and (d) the re-encoding is the MODEL's encoding of that
+            # value - i.e. exactly the collapse the model predicts; anything else on such a type is a new violation
+            cand = {}
+            for r in acc:
+                o = ores.get(r['cid'])
+                if o is not None and o.startswith('diff ') and has_index(tmap[r['tid']]) and r['agree']:
+                    parts = o.split(' ')
+                    if len(parts) == 3 and len(parts[2]) < len(parts[1]):
+                        cand[r['cid']] = (r, parts[2])
+            menc = run_cases(driver, [case_line(cid, 'enc', r['tid'], r['type'], r['impl'][3:].rsplit(' ', 1)[0]) for cid, (r, _) in cand.items()])
+            f8 = {cid for cid, (r, again) in cand.items() if (menc.get(cid) or '').replace('-', '') == 'ok ' + again}
             for r in acc:
                 o = ores.get(r['cid'])
                 if o is None or not o.startswith('ok same'):
                     t = tmap[r['tid']]
-                    # the known finding F8 is specific: an index collection collapses repeated entries, so the value
-                    # re-encodes to STRICTLY FEWER bytes than were consumed; any other mismatch on such a type is not it
-                    shorter = False
-                    if o is not None and o.startswith('diff '):
-                        parts = o.split(' ')
-                        shorter = len(parts) == 3 and len(parts[2]) < len(parts[1])
-                    cls = 'index-duplicates' if (has_index(t) and shorter) else 'strict-not-bijective'
+                    cls = 'index-duplicates' if r['cid'] in f8 else 'strict-not-bijective'
                     failures.append({'class': cls, 'key': '%s %s' % (r['type'], r['input']),
                                      'what': 'strict mode accepted an input that does not re-serialize to itself: %s on %s -> %s; re-encode: %s [%s]' % (r['type'], r['input'], r['impl'], o, cfg),
                                      'type': r['type'], 'input': r['input'], 'result': r['impl'], 'reencode': o, 'cfg': cfg})
